@@ -156,21 +156,22 @@ RCP<const Basic> conjugate(const RCP<const Basic> &arg)
         return arg;
     }
     if (is_a<Mul>(*arg)) {
+        // The conjugate of a factor can itself be a product or a number
+        // (e.g. conjugate(sin(I*x)) = -sin(I*conjugate(x))), so the result is
+        // rebuilt with mul() instead of inserting the factors into a
+        // dictionary directly.
         const map_basic_basic &dict = down_cast<const Mul &>(*arg).get_dict();
-        map_basic_basic new_dict;
-        RCP<const Number> coef = rcp_static_cast<const Number>(
-            conjugate(down_cast<const Mul &>(*arg).get_coef()));
+        RCP<const Basic> res
+            = conjugate(down_cast<const Mul &>(*arg).get_coef());
         for (const auto &p : dict) {
             if (is_a<Integer>(*p.second)) {
-                Mul::dict_add_term_new(outArg(coef), new_dict, p.second,
-                                       conjugate(p.first));
+                res = mul(res, pow(conjugate(p.first), p.second));
             } else {
-                Mul::dict_add_term_new(
-                    outArg(coef), new_dict, one,
-                    conjugate(Mul::from_dict(one, {{p.first, p.second}})));
+                res = mul(res, conjugate(Mul::from_dict(
+                                   one, {{p.first, p.second}})));
             }
         }
-        return Mul::from_dict(coef, std::move(new_dict));
+        return res;
     }
     if (is_a<Pow>(*arg)) {
         RCP<const Basic> base = down_cast<const Pow &>(*arg).get_base();
